@@ -109,8 +109,27 @@ def doQuery (w : List PN) (srt cons lim : String) (cont : Option String) (around
 /-- the state: the permanodes in declaration order, and the declared content files (key ↦ index of
 the permanode whose camliContent they are) -/
 structure St where
-  w : List PN
+  w : List PN                      -- `dates` here are ALL claim dates, in claim order
   files : List (String × Nat)
+  dels : List DelTarget := []      -- the delete claims, in the order they were issued
+
+/-- the world the corpus answers from: deleted claims do not count for the modtime -/
+def St.eff (st : St) : List PN :=
+  (List.range st.w.length).filterMap (fun i => st.w[i]?.map (fun p => { p with dates := liveDates st.dels i p.dates }))
+
+/-- the permanode a delete claim is ultimately about -/
+def rootPn (dels : List DelTarget) : Nat → Nat → Option Nat
+  | 0, _ => none
+  | fuel + 1, j =>
+    match dels[j]? with
+    | some (.claim pn _) => some pn
+    | some (.del k) => rootPn dels fuel k
+    | none => none
+
+def showTimesAt (st : St) (i : Nat) : String :=
+  match st.eff[i]? with
+  | some p => s!"ok {showTime (permanodeAnyTime p)} {showTime (permanodeModtime p)}"
+  | none => "bad-op"
 
 def keyOk (key : String) : Bool := !key.isEmpty && key.toList.all (fun c => c.isLower || c.isDigit)
 
@@ -121,6 +140,25 @@ def attrDateOk (d : Int) : Bool := decide (d < 1600000000000000000)
 def step (st : St) (ws : List String) : St × String :=
   let w := st.w
   match ws with
+  | ["del", pi, ci, d] =>
+    match pi.toNat?, ci.toNat?, claimDateArg d with
+    | some i, some c, some _ =>
+      match w[i]? with
+      | some p =>
+        if toString i != pi || toString c != ci || c ≥ p.dates.length then (st, "bad-op") else
+        let st' := { st with dels := st.dels ++ [.claim i c] }
+        (st', showTimesAt st' i)
+      | none => (st, "bad-op")
+    | _, _, _ => (st, "bad-op")
+  | ["deld", ji, d] =>
+    match ji.toNat?, claimDateArg d with
+    | some j, some _ =>
+      if toString j != ji || j ≥ st.dels.length then (st, "bad-op") else
+      let st' := { st with dels := st.dels ++ [.del j] }
+      match rootPn st'.dels (st'.dels.length + 1) j with
+      | some i => (st', showTimesAt st' i)
+      | none => (st, "bad-op")
+    | _, _ => (st, "bad-op")
   | ["pn", key, refhex, dc, tags, ds] =>
     let dc? : Option (Option Int) := if dc == "none" then some none else (timeArg dc).map some
     let tags? : Option (Bool × Bool × Bool) :=
@@ -136,7 +174,8 @@ def step (st : St) (ws : List String) : St × String :=
       if r.odd || need > dates.length || w.any (fun p => p.ref == k)
           || (dates.take need).any (fun d => !attrDateOk d) then (st, "bad-op") else
       let p : PN := ⟨k, dcv, ta, tb, dates, ty, none⟩
-      ({ st with w := w ++ [p] }, showTimes p)
+      let st' := { st with w := w ++ [p] }
+      (st', showTimesAt st' w.length)
     | _, _, _, _, _ => (st, "bad-op")
   | ["cc", idx, fkey, cd, ft] =>
     let ft? : Option (Option Int) := if ft == "none" then some none else (timeArg ft).map some
@@ -147,7 +186,8 @@ def step (st : St) (ws : List String) : St × String :=
         if toString i != idx || !keyOk fkey || p.cc.isSome || st.files.any (fun f => f.1 == fkey)
             || !attrDateOk d || ftv == some zeroTime then (st, "bad-op") else
         let p' : PN := { p with cc := some ⟨d, ftv, false⟩, dates := p.dates ++ [d] }
-        ({ w := w.set i p', files := st.files ++ [(fkey, i)] }, showTimes p')
+        let st' := { st with w := w.set i p', files := st.files ++ [(fkey, i)] }
+        (st', showTimesAt st' i)
       | none => (st, "bad-op")
     | _, _, _ => (st, "bad-op")
   | ["file", fkey] =>
@@ -159,20 +199,21 @@ def step (st : St) (ws : List String) : St × String :=
         | some c =>
           if c.indexed then (st, "bad-op") else
           let p' : PN := { p with cc := some { c with indexed := true } }
-          ({ st with w := w.set i p' }, showTimes p')
+          let st' := { st with w := w.set i p' }
+          (st', showTimesAt st' i)
         | none => (st, "bad-op")
       | none => (st, "bad-op")
     | none => (st, "bad-op")
-  | ["q", srt, cons, lim, cont] => (st, doQuery w srt cons lim (some cont) none)
-  | ["ar", srt, cons, lim, piv] => (st, doQuery w srt cons lim none (some piv))
-  | ["ar", srt, cons, lim, piv, cont] => (st, doQuery w srt cons lim (some cont) (some piv))
+  | ["q", srt, cons, lim, cont] => (st, doQuery st.eff srt cons lim (some cont) none)
+  | ["ar", srt, cons, lim, piv] => (st, doQuery st.eff srt cons lim none (some piv))
+  | ["ar", srt, cons, lim, piv, cont] => (st, doQuery st.eff srt cons lim (some cont) (some piv))
   -- qr / arr: the same requests issued by a caller that reuses one Go query value; the handler must
   -- answer exactly as for fresh values (it owns no state of the caller)
-  | ["qr", srt, cons, lim, cont] => (st, doQuery w srt cons lim (some cont) none)
-  | ["arr", srt, cons, lim, piv] => (st, doQuery w srt cons lim none (some piv))
-  | ["arr", srt, cons, lim, piv, cont] => (st, doQuery w srt cons lim (some cont) (some piv))
+  | ["qr", srt, cons, lim, cont] => (st, doQuery st.eff srt cons lim (some cont) none)
+  | ["arr", srt, cons, lim, piv] => (st, doQuery st.eff srt cons lim none (some piv))
+  | ["arr", srt, cons, lim, piv, cont] => (st, doQuery st.eff srt cons lim (some cont) (some piv))
   | _ => (st, "bad-op")
 
-def machine : Machine := { σ := St, init := ⟨[], []⟩, step := step }
+def machine : Machine := { σ := St, init := ⟨[], [], []⟩, step := step }
 
 end Pk.Drv.C09
